@@ -4,10 +4,13 @@ Xs == {R(1, 8), R(1, 4), R(1, 2), R(3, 4)}
 \* charm mass 3/2 (m2 = 9/4), bottom mass 9/2 (m2 = 81/4); Q2 chosen so that some points sit EXACTLY on a threshold:
 \*   Q2 (1-x)/x = 4 m2 = 9  at (x=1/2,Q2=9), (x=1/4,Q2=3), (x=3/4,Q2=27)
 Q2s == {RI(3), RI(9), RI(27), RI(12), RI(100), RI(2)}
-NC == {[proc |-> "NC", x |-> x, Q2 |-> q, m2 |-> R(9, 4), hq |-> 4, cls |-> PairClass(x, q, R(9, 4)),
-        empty |-> BelowPair(x, q, R(9, 4)), chi |-> x] : x \in Xs, q \in Q2s}
-CC == {[proc |-> "CC", x |-> x, Q2 |-> q, m2 |-> m[1], hq |-> m[2], cls |-> IF CCEmpty(x, q, m[1]) THEN "below" ELSE "above",
-        empty |-> CCEmpty(x, q, m[1]), chi |-> Chi(x, q, m[1])] : x \in Xs, q \in Q2s, m \in {<<R(9, 4), 4>>, <<R(81, 4), 5>>}}
+\* (mass^2, heavy quark, NfFF): the threshold of a heavy quark is set by ITS OWN mass whatever the number of light flavours
+\* (bottom as second massive quark with NfFF = 3, as first with NfFF = 4); 4 m_b^2 = 81 is met exactly at (x=1/4, Q2=27)
+HQs == {<<R(9, 4), 4, 3>>, <<R(81, 4), 5, 3>>, <<R(81, 4), 5, 4>>}
+NC == {[proc |-> "NC", x |-> x, Q2 |-> q, m2 |-> m[1], hq |-> m[2], nfff |-> m[3], cls |-> PairClass(x, q, m[1]),
+        empty |-> BelowPair(x, q, m[1]), chi |-> x] : x \in Xs, q \in Q2s, m \in HQs}
+CC == {[proc |-> "CC", x |-> x, Q2 |-> q, m2 |-> m[1], hq |-> m[2], nfff |-> m[3], cls |-> IF CCEmpty(x, q, m[1]) THEN "below" ELSE "above",
+        empty |-> CCEmpty(x, q, m[1]), chi |-> Chi(x, q, m[1])] : x \in Xs, q \in Q2s, m \in HQs}
 ASSUME \E o \in NC : o.cls = "at"
 ASSUME ndJsonSerialize(IOEnv.OUT, SetToSeq(NC \cup CC))
 =============================================================================
